@@ -1016,6 +1016,13 @@ func (c *c09Case) judge(evs []c09Ev, ops []c09Op, obs *c09Obs, treeAvailable boo
 				break
 			}
 		} else {
+			if last.postExit == 0 {
+				// the live counter dropped but the log snapshot has no completed PostStop
+				// for this incarnation: a stop is still in progress while the verdict is
+				// taken, so "has stopped" cannot be claimed (counted, not judged)
+				obs.Zombies++
+				continue
+			}
 			if registered {
 				c.find("stopped-actor-registered:quiescent:"+how, "%s has stopped (PostStop done at #%d) but is still in the tree at death-watch quiescence; ops=%v", n.name, last.postExit, c09OpsOn(ops, n.name))
 			}
